@@ -709,4 +709,292 @@ theorem addSameSpacedGrid_gen (Ls : Smear.Lattice K) (w : Ls.WF) (p : Part K) (g
 
 end same
 
+/-! ### `add_particle_data` -/
+section main
+open Smear (Axis Part linspace zero nearest closest minP maxP placeAxis tempCoords targets target addAt edgeTolFactor
+  tempValues)
+variable {K : Type} [Field K] [LinearOrder K] [IsStrictOrderedRing K]
+
+/-- a loop over a list whose body is a total function on the states it meets -/
+theorem foldlM_list_eq {σ ι : Type} (step : σ → ι → Except Err σ) (f : σ → ι → σ) (P : σ → Prop) (l : List ι)
+    (hP : ∀ s x, P s → x ∈ l → P (f s x)) (hstep : ∀ s x, P s → x ∈ l → step s x = .ok (f s x)) (s0 : σ) (h0 : P s0) :
+    List.foldlM (m := Except Err) step s0 l = .ok (l.foldl f s0) := by
+  induction l generalizing s0 with
+  | nil => rfl
+  | cons x l ih =>
+    rw [List.foldlM_cons, hstep s0 x h0 (by simp)]
+    exact ih (fun s y hs hy => hP s y hs (by simp [hy])) (fun s y hs hy => hstep s y hs (by simp [hy])) _
+      (hP s0 x h0 (by simp))
+
+/-- which attribute of the particle `quantity` selects (the model is handed the selected number) -/
+def quantityOf (q : String) : Option (Gen.Smear.Ptl K → K) :=
+  if q = "energy_density" then some (fun p => p.E)
+  else if q = "number_density" then some (fun _ => 1)
+  else if q = "charge_density" then some (fun p => p.charge)
+  else if q = "baryon_density" then some (fun p => p.baryon_number)
+  else if q = "strangeness_density" then some (fun p => p.strangeness)
+  else none
+
+/-- the particle as the model `Core/Smear.lean` is handed it -/
+def toPart (f : Gen.Smear.Ptl K → K) (a b c : Nat) (pt : Gen.Smear.Ptl K) : Part K :=
+  ⟨pt.x, pt.y, pt.z, f pt, a, b, c, pt.kv.map some⟩
+
+theorem ofInt_nat (a : Nat) : (Gen.Smear.ofInt ((a : Nat) : Int) : K) = ((a : Nat) : K) := by
+  unfold Gen.Smear.ofInt
+  have : ¬ ((a : Int) < 0) := by omega
+  simp [this]
+
+theorem natOfInt_nat (a : Nat) : Gen.Smear.natOfInt (2 * ((a : Nat) : Int) + 1) = .ok (2 * a + 1) := by
+  unfold Gen.Smear.natOfInt
+  have : ¬ (2 * ((a : Nat) : Int) + 1 < 0) := by omega
+  simp only [this, if_false]
+  congr 1
+
+theorem bind_eq_of_ok {α β : Type} {x : Except Err α} {v : α} {F : α → Except Err β} {r : Except Err β}
+    (hx : x = .ok v) (hr : F v = r) : x.bind F = r := by
+  rw [hx]; exact hr
+
+theorem popK_drop (l : List K) (q : Nat) (h : q < l.length) :
+    Gen.Smear.popK (l.drop q) = .ok (l[q], l.drop (q + 1)) := by
+  rw [List.drop_eq_getElem_cons h]; rfl
+
+theorem getD_append_replicate (A : List K) (n q : Nat) (z : K) (hq : q = A.length) (hn : 0 < n) :
+    (A ++ List.replicate n z).getD q z = z := by
+  subst hq
+  simp [List.getD_eq_getElem?_getD, List.getElem?_append_right, hn]
+
+theorem getD_mid {β : Type} (A : List β) (x : β) (rest : List β) (q : Nat) (hq : q = A.length) (d : β) :
+    (A ++ x :: rest).getD q d = x := by
+  subst hq
+  simp [List.getD_eq_getElem?_getD, List.getElem?_append_right]
+
+/-- what the model deposits for one particle -/
+def addOne' (Ls : Smear.Lattice K) (f : Gen.Smear.Ptl K → K) (a b c : Nat) (G : List K) (pt : Gen.Smear.Ptl K) : List K :=
+  (Smear.pick ((targets Ls (toPart f a b c pt)).zip (tempValues Ls.cellVolume (f pt) pt.kv))).foldl addAt G
+
+theorem addOne_eq (Ls : Smear.Lattice K) (w : Ls.WF) (f : Gen.Smear.Ptl K → K) (a b c : Nat) (G : List K)
+    (pt : Gen.Smear.Ptl K) (hlen : pt.kv.length = (2 * a + 1) * (2 * b + 1) * (2 * c + 1)) :
+    Smear.addOne Ls G (toPart f a b c pt) = some (addOne' Ls f a b c G pt) := by
+  have k : Smear.KernelOK (toPart f a b c pt) := ⟨by simp [toPart], by simp [toPart, hlen]⟩
+  unfold Smear.addOne
+  rw [Smear.deposits_eq w k]
+  simp [addOne', Smear.kernelVals, toPart, Function.comp_def]
+
+theorem foldl_latOf (Ls : Smear.Lattice K) (f : Gen.Smear.Ptl K → K) (a b c : Nat) (ps : List (Gen.Smear.Ptl K)) (g0 : List K) :
+    ps.foldl (fun L pt => latOf Ls (addOne' Ls f a b c L.grid pt)) (latOf Ls g0) =
+      latOf Ls (ps.foldl (addOne' Ls f a b c) g0) := by
+  induction ps generalizing g0 with
+  | nil => rfl
+  | cons pt ps ih => simp only [List.foldl_cons, latOf_grid]; exact ih _
+
+/-- **the generated `add_particle_data` = the model's `addParticleData`** -/
+theorem addParticleData_gen (Ls : Smear.Lattice K) (w : Ls.WF) (g : List K) (hg : g.length = Ls.size)
+    (ox oy oz : Option K) (sigma : K) (isnan : K → Bool) (hnan : ∀ x, isnan x = false) (pyround : K → Int)
+    (a b c : Nat)
+    (hra : pyround (ox.getD ((3 : Nat) : K) * sigma / Ls.X.spacing) = (a : Int))
+    (hrb : pyround (oy.getD ((3 : Nat) : K) * sigma / Ls.Y.spacing) = (b : Int))
+    (hrc : pyround (oz.getD ((3 : Nat) : K) * sigma / Ls.Z.spacing) = (c : Int))
+    (q kernel : String) (f : Gen.Smear.Ptl K → K) (hq : quantityOf q = some f)
+    (hk : kernel = "gaussian" ∨ kernel = "covariant")
+    (ps : List (Gen.Smear.Ptl K)) (hlen : ∀ pt ∈ ps, pt.kv.length = (2 * a + 1) * (2 * b + 1) * (2 * c + 1))
+    (add : Bool) :
+    Gen.Smear.addParticleData linspace isnan pyround (latOf Ls g) (attrsOf Ls ox oy oz) ps sigma q kernel add =
+      .ok (latOf Ls (ps.foldl (addOne' Ls f a b c) (if add then g else Smear.reset g))) := by
+  have hnx := w.X.two
+  have hny := w.Y.two
+  have hnz := w.Z.two
+  have s1 : (attrsOf Ls ox oy oz).spacing_x = some Ls.X.spacing := by simp [attrsOf]; omega
+  have s2 : (attrsOf Ls ox oy oz).spacing_y = some Ls.Y.spacing := by simp [attrsOf]; omega
+  have s3 : (attrsOf Ls ox oy oz).spacing_z = some Ls.Z.spacing := by simp [attrsOf]; omega
+  have n1 : (attrsOf Ls ox oy oz).n_sigma_x = ox.getD ((3 : Nat) : K) := rfl
+  have n2 : (attrsOf Ls ox oy oz).n_sigma_y = oy.getD ((3 : Nat) : K) := rfl
+  have n3 : (attrsOf Ls ox oy oz).n_sigma_z = oz.getD ((3 : Nat) : K) := rfl
+  have cv : (attrsOf Ls ox oy oz).cell_volume = Ls.cellVolume := rfl
+  have hT : (⟨⟨-(((a : Nat) : K) * Ls.X.spacing), ((a : Nat) : K) * Ls.X.spacing, 2 * a + 1⟩,
+      ⟨-(((b : Nat) : K) * Ls.Y.spacing), ((b : Nat) : K) * Ls.Y.spacing, 2 * b + 1⟩,
+      ⟨-(((c : Nat) : K) * Ls.Z.spacing), ((c : Nat) : K) * Ls.Z.spacing, 2 * c + 1⟩⟩ : Smear.Lattice K) = tempL Ls a b c := rfl
+  unfold Gen.Smear.addParticleData
+  simp only [s1, s2, s3, n1, n2, n3, cv, hnan, hra, hrb, hrc, Bool.or_self, Bool.false_eq_true, if_false, ite_false,
+    natOfInt_nat, bind_ok, ofInt_nat, initAttrs_gen, init_gen, hT, latOf_nx, latOf_ny, latOf_nz, tempL_Xn, tempL_Yn,
+    tempL_Zn, ite_self]
+  -- reset unless add
+  have hstart : (if (!add) = true then (Gen.Smear.reset (latOf Ls g)).bind fun t => Except.ok t else Except.ok (latOf Ls g))
+      = .ok (latOf Ls (if add then g else Smear.reset g)) := by
+    cases add
+    · simp [reset_gen (latOf Ls g) hg]
+    · simp
+  rw [hstart, bind_ok]
+  set g0 := (if add then g else Smear.reset g) with hg0
+  have lg0 : g0.length = Ls.size := by
+    rw [hg0]; split <;> simp [Smear.reset, hg]
+  rw [foldlM_list_eq _ (fun L pt => latOf Ls (addOne' Ls f a b c L.grid pt))
+    (fun L => ∃ G, L = latOf Ls G ∧ G.length = Ls.size) ps ?hP ?hstep (latOf Ls g0) ⟨g0, rfl, lg0⟩]
+  case hP =>
+    rintro _ pt ⟨G, rfl, lG⟩ _
+    exact ⟨_, rfl, by simp [addOne', Smear.length_foldl_addAt, lG]⟩
+  · -- the list fold of records is the record of the list fold
+    simp only [bind_ok, foldl_latOf]
+  case hstep =>
+    rintro _ pt ⟨G, rfl, lG⟩ hpt
+    have hl := hlen pt hpt
+    simp only [latOf_grid]
+    -- the quantity
+    refine bind_eq_of_ok (v := f pt) ?_ ?_
+    · unfold quantityOf at hq
+      split_ifs at hq <;> simp only [Option.some.injEq, reduceCtorEq] at hq <;> subst hq <;> simp [*]
+    -- the kernel object
+    refine bind_eq_of_ok (v := pt.kv) ?_ ?_
+    · rcases hk with hk | hk <;> subst hk <;> simp
+    -- first loop over the temporary lattice: kernel values in, unnormalised deposits and their sum out
+    set N := (2 * a + 1) * (2 * b + 1) * (2 * c + 1) with hN
+    set V := Ls.cellVolume with hV
+    set v := f pt with hv
+    set T := tempL Ls a b c with hTT
+    have lT : ∀ G' : List K, G'.length = N →
+        (latOf T G').grid.length = (latOf T G').nx * (latOf T G').ny * (latOf T G').nz := fun G' h => h
+    refine bind_eq_of_ok (v := (([] : List K), pt.kv.foldl (· + ·) ((0 : Nat) : K),
+      latOf T (pt.kv.map (fun s => ((0 : Nat) : K) + v * s / V)))) ?_ ?_
+    · rw [foldlM_ndindex]
+      rw [foldlM_range_eq _
+        (fun q => (pt.kv.drop q, (pt.kv.take q).foldl (· + ·) ((0 : Nat) : K),
+          latOf T ((pt.kv.take q).map (fun s => ((0 : Nat) : K) + v * s / V) ++ List.replicate (N - q) ((0 : Nat) : K))))
+        N _ (by simp) ?_]
+      · have tk : pt.kv.take N = pt.kv := by rw [← hl]; exact List.take_length
+        have dr : pt.kv.drop N = [] := by rw [← hl]; exact List.drop_length
+        simp [tk, dr]
+      · intro q hq
+        obtain ⟨hi, hj, hk'⟩ := unflat_lt (nx := 2 * a + 1) hq
+        have hq' : q < pt.kv.length := by rw [hl]; exact hq
+        have lA : ((pt.kv.take q).map (fun s => ((0 : Nat) : K) + v * s / V)).length = q := by
+          simp [List.length_take]; omega
+        have lG' : ((pt.kv.take q).map (fun s => ((0 : Nat) : K) + v * s / V) ++ List.replicate (N - q) ((0 : Nat) : K)).length = N := by
+          rw [List.length_append, lA, List.length_replicate]; omega
+        have hco := getCoordinates_nat (latOf T ((pt.kv.take q).map (fun s => ((0 : Nat) : K) + v * s / V) ++ List.replicate (N - q) ((0 : Nat) : K)))
+          _ _ _ (values_length _) (values_length _) (values_length _) hi hj hk' zero
+        have hrg := rawGet_nat (latOf T ((pt.kv.take q).map (fun s => ((0 : Nat) : K) + v * s / V) ++ List.replicate (N - q) ((0 : Nat) : K)))
+          (lT _ lG') _ _ _ hi hj hk' ((0 : Nat) : K)
+        have hrs := fun x => rawSet_nat (latOf T ((pt.kv.take q).map (fun s => ((0 : Nat) : K) + v * s / V) ++ List.replicate (N - q) ((0 : Nat) : K)))
+          (lT _ lG') _ _ _ hi hj hk' x
+        have hfl : flat (2 * b + 1) (2 * c + 1) (unflat (2 * b + 1) (2 * c + 1) q).1 (unflat (2 * b + 1) (2 * c + 1) q).2.1
+            (unflat (2 * b + 1) (2 * c + 1) q).2.2 = q := Lattice.flat_unflat q
+        simp only [latOf_ny, latOf_nz, latOf_grid, latOf_with, hTT, tempL_Yn, tempL_Zn, hfl] at hrg hrs
+        rw [← hTT] at hrg hrs
+        beta_reduce
+        dsimp only
+        simp only [hco, bind_ok, popK_drop _ _ hq', hrg, hrs]
+        rw [getD_append_replicate _ _ _ _ lA.symm (by omega)]
+        refine congrArg _ ?_
+        rw [List.take_succ_eq_append_getElem hq', List.foldl_append, List.map_append]
+        have hrep : List.replicate (N - q) ((0 : Nat) : K) = ((0 : Nat) : K) :: List.replicate (N - (q + 1)) ((0 : Nat) : K) := by
+          rw [show N - q = (N - (q + 1)) + 1 by omega, List.replicate_succ]
+        rw [hrep, set_mid _ _ _ _ _ lA.symm]
+        simp
+    -- second loop: normalisation by the kernel sum when it is positive
+    dsimp only
+    simp only [latOf_nx, latOf_ny, latOf_nz, hTT, tempL_Xn, tempL_Yn, tempL_Zn]
+    rw [← hTT]
+    set norm := pt.kv.foldl (· + ·) ((0 : Nat) : K) with hnorm
+    set G1 := pt.kv.map (fun s => ((0 : Nat) : K) + v * s / V) with hG1
+    have lG1 : G1.length = N := by rw [hG1, List.length_map, hl]
+    refine bind_eq_of_ok (v := latOf T (G1.map (fun x => if ((0 : Nat) : K) < norm then x / norm else x))) ?_ ?_
+    · rw [foldlM_ndindex]
+      rw [foldlM_range_eq _
+        (fun q => latOf T ((G1.take q).map (fun x => if ((0 : Nat) : K) < norm then x / norm else x) ++ G1.drop q))
+        N _ (by simp) ?_]
+      · have tk : G1.take N = G1 := by rw [← lG1]; exact List.take_length
+        have dr : G1.drop N = [] := by rw [← lG1]; exact List.drop_length
+        simp [tk, dr]
+      · intro q hq
+        obtain ⟨hi, hj, hk'⟩ := unflat_lt (nx := 2 * a + 1) hq
+        have hq' : q < G1.length := by rw [lG1]; exact hq
+        have lA : ((G1.take q).map (fun x => if ((0 : Nat) : K) < norm then x / norm else x)).length = q := by
+          simp [List.length_take]; omega
+        have lG' : ((G1.take q).map (fun x => if ((0 : Nat) : K) < norm then x / norm else x) ++ G1.drop q).length = N := by
+          rw [List.length_append, lA, List.length_drop]; omega
+        have hrg := rawGet_nat (latOf T ((G1.take q).map (fun x => if ((0 : Nat) : K) < norm then x / norm else x) ++ G1.drop q))
+          (lT _ lG') _ _ _ hi hj hk' ((0 : Nat) : K)
+        have hrs := fun x => rawSet_nat (latOf T ((G1.take q).map (fun x => if ((0 : Nat) : K) < norm then x / norm else x) ++ G1.drop q))
+          (lT _ lG') _ _ _ hi hj hk' x
+        have hfl : flat (2 * b + 1) (2 * c + 1) (unflat (2 * b + 1) (2 * c + 1) q).1 (unflat (2 * b + 1) (2 * c + 1) q).2.1
+            (unflat (2 * b + 1) (2 * c + 1) q).2.2 = q := Lattice.flat_unflat q
+        simp only [latOf_ny, latOf_nz, latOf_grid, latOf_with, hTT, tempL_Yn, tempL_Zn, hfl] at hrg hrs
+        rw [← hTT] at hrg hrs
+        beta_reduce
+        simp only [hrg, hrs, bind_ok]
+        rw [List.take_succ_eq_append_getElem hq', List.map_append, List.append_assoc]
+        by_cases hpos : ((0 : Nat) : K) < norm
+        · simp only [hpos, decide_true, if_true]
+          refine congrArg _ (congrArg _ ?_)
+          have lA' : ((G1.take q).map (fun x => x / norm)).length = q := by simp [List.length_take]; omega
+          rw [List.drop_eq_getElem_cons hq', getD_mid _ _ _ _ lA'.symm, set_mid _ _ _ _ _ lA'.symm]
+          simp
+        · simp only [hpos, decide_false, Bool.false_eq_true, if_false]
+          refine congrArg _ (congrArg _ ?_)
+          rw [List.drop_eq_getElem_cons hq']
+          simp
+    -- closest node, its coordinates, and the deposit
+    obtain ⟨bw, hfc⟩ := findClosestIndices_gen (latOf Ls G) pt.x pt.y pt.z
+    have cX := w.X.closest_lt pt.x
+    have cY := w.Y.closest_lt pt.y
+    have cZ := w.Z.closest_lt pt.z
+    have hco := getCoordinates_nat (latOf Ls G) _ _ _ (values_length _) (values_length _) (values_length _) cX cY cZ zero
+    simp only [latOf_xs, latOf_ys, latOf_zs] at hfc hco
+    simp only [hfc, bind_ok, hco]
+    have G2l : (G1.map (fun x => if ((0 : Nat) : K) < norm then x / norm else x)).length
+        = (2 * (toPart f a b c pt).numX + 1) * (2 * (toPart f a b c pt).numY + 1) * (2 * (toPart f a b c pt).numZ + 1) := by
+      rw [List.length_map, lG1]; rfl
+    have hsame := addSameSpacedGrid_gen Ls w (toPart f a b c pt) G lG _ G2l ox oy oz
+    rw [hTT]
+    refine bind_eq_of_ok (v := _) hsame ?_
+    refine congrArg _ (congrArg _ ?_)
+    -- the content of the temporary lattice is the model's `tempValues`
+    unfold addOne'
+    refine congrArg _ (congrArg _ (congrArg _ ?_))
+    rw [hG1, List.map_map]
+    unfold tempValues
+    apply List.map_congr_left
+    intro s _
+    have hs : sumL pt.kv = norm := rfl
+    simp only [Function.comp, hs, Smear.zero, toPart]
+    split <;> simp <;> first | rfl | (simp only [hv, hV]; ring1)
+
+
+/-- the model run on the particles as it is handed them -/
+theorem core_addParticleData (Ls : Smear.Lattice K) (w : Ls.WF) (g : List K) (f : Gen.Smear.Ptl K → K) (a b c : Nat)
+    (ps : List (Gen.Smear.Ptl K)) (hlen : ∀ pt ∈ ps, pt.kv.length = (2 * a + 1) * (2 * b + 1) * (2 * c + 1)) (add : Bool) :
+    Smear.addParticleData Ls g (ps.map (toPart f a b c)) add =
+      some (ps.foldl (addOne' Ls f a b c) (if add then g else Smear.reset g)) := by
+  unfold Smear.addParticleData
+  generalize (if add = true then g else Smear.reset g) = g0
+  induction ps generalizing g0 with
+  | nil => rfl
+  | cons pt ps ih =>
+    simp only [List.map_cons, List.foldlM_cons, List.foldl_cons]
+    rw [addOne_eq Ls w f a b c g0 pt (hlen pt (by simp))]
+    exact ih (fun p hp => hlen p (by simp [hp])) _
+
+/-- **Tie T for C16.**  On the object the constructor builds for the model lattice `Ls` (any `n_sigma` arguments, any
+content `g`), with `np.linspace` = the model's `linspace`, no NaN among the numbers (`isnan` constantly false: over an
+ordered field there is none), `round(n_sigma·sigma/spacing)` = the half-widths `a b c`, a quantity name of the table
+`quantityOf`, a kernel name the code accepts and one recorded pdf value per node of the temporary lattice, the function
+GENERATED from the current source returns exactly the lattice the hand model `Smear.addParticleData` computes from the
+selected quantity values, the half-widths and the same kernel tables. -/
+theorem gen_eq_model (Ls : Smear.Lattice K) (w : Ls.WF) (g : List K) (hg : g.length = Ls.size)
+    (ox oy oz : Option K) (sigma : K) (isnan : K → Bool) (hnan : ∀ x, isnan x = false) (pyround : K → Int)
+    (a b c : Nat)
+    (hra : pyround (ox.getD ((3 : Nat) : K) * sigma / Ls.X.spacing) = (a : Int))
+    (hrb : pyround (oy.getD ((3 : Nat) : K) * sigma / Ls.Y.spacing) = (b : Int))
+    (hrc : pyround (oz.getD ((3 : Nat) : K) * sigma / Ls.Z.spacing) = (c : Int))
+    (q kernel : String) (f : Gen.Smear.Ptl K → K) (hq : quantityOf q = some f)
+    (hk : kernel = "gaussian" ∨ kernel = "covariant")
+    (ps : List (Gen.Smear.Ptl K)) (hlen : ∀ pt ∈ ps, pt.kv.length = (2 * a + 1) * (2 * b + 1) * (2 * c + 1))
+    (add : Bool) :
+    ∃ g', Smear.addParticleData Ls g (ps.map (toPart f a b c)) add = some g' ∧
+      Gen.Smear.addParticleData linspace isnan pyround (latOf Ls g) (attrsOf Ls ox oy oz) ps sigma q kernel add =
+        .ok (latOf Ls g') :=
+  ⟨_, core_addParticleData Ls w g f a b c ps hlen add,
+    addParticleData_gen Ls w g hg ox oy oz sigma isnan hnan pyround a b c hra hrb hrc q kernel f hq hk ps hlen add⟩
+
+end main
+
 end SparkxVerif.SmearGen
